@@ -8,6 +8,7 @@ export GOFLAGS=-mod=mod GOPROXY=off GOSUMDB=off GOTOOLCHAIN=local
 mkdir -p build evidence replays
 cp "$REPO/go.sum" harness/go.sum
 (cd harness && go build -o ../build/factgen ./cmd/factgen)
+mkdir -p lean/JetVerif/Generated build
 rm -f lean/JetVerif/Generated/Facts.lean lean/JetVerif/Generated/Unicode.lean
 ./build/factgen -repo "$REPO" -o lean/JetVerif/Generated/Facts.lean -unicode lean/JetVerif/Generated/Unicode.lean
 (cd lean && lake build JetVerif jetdriver)
